@@ -106,6 +106,17 @@ def run(tier, seed, ck=None):
     rets = [p for p in r.paths if p['end'] == 'return']
     ck.ground('C04.Hex', 'Hex() is the hex encoding of exactly the bytes of Encode(), on every path', len(rets) >= 2 and all(
         p['obs']['hex']['elems'] == p['obs']['enc']['elems'] and p['obs']['hex']['label'] == 'hexenc' for p in rets))
+    if own:
+        # the bytes depend only on the group element, never on how it was computed: no hidden state behind the observers
+        from props import hidden
+        hf = hidden.run(ck, tier, which=('element',))
+        if hf and not ck.violations:
+            path = ck.save_replay({'property': 'C04', 'cases': [{'kind': 'hidden-element', 'n': f_[2]} for f_ in hf[:8]]})
+            ok, out = core.go_test(path)
+            if not ok and 'MISMATCH' in out:
+                ck.violation('hidden-state', 'an encoding depends on hidden state after %s: %s' % (hf[0][0], [l.strip() for l in out.splitlines() if 'MISMATCH' in l][:1]), path)
+            else:
+                ck.inconclusive.append('hidden-state finding %s did not reproduce' % (hf[0],))
     if any(not o['ok'] for o in ck.obls) and not ck.violations:
         battery('encode:structure', 'a structural obligation failed')
     return ck.finish() if own else None
